@@ -447,4 +447,117 @@ theorem src_write_track (cs : Charset) (out : List Int) (tr : List TEvent)
   · have hok' : tr.all timeOk = false := by simpa using hok
     simp [writeTrack, hok', throw, throwThe, MonadExceptOf.throw, bind, Except.bind]
 
+/-! ### `MidiFile.save` / `_save` -/
+
+theorem packI16_eq (v : Int) : packI16 v = (i16be v).map natsToInts := by
+  unfold packI16 i16be
+  by_cases h : -32768 ≤ v ∧ v ≤ 32767
+  · simp only [h, and_self, if_true, Except.map, natsToInts, List.map_cons, List.map_nil]
+    by_cases hv : v < 0
+    · simp only [hv, if_true]
+      congr 1
+      have : 0 ≤ v + 65536 := by omega
+      obtain ⟨k, hk⟩ := Int.eq_ofNat_of_zero_le this
+      simp only [hk, Int.toNat_natCast, Int.ofNat_eq_natCast]
+      simp
+    · simp only [hv, if_false]
+      congr 1
+      have : 0 ≤ v := by omega
+      obtain ⟨k, hk⟩ := Int.eq_ofNat_of_zero_le this
+      simp only [hk, Int.toNat_natCast, Int.ofNat_eq_natCast]
+      simp
+  · simp [h, Except.map]
+
+/-- the hypothesis of `src_write_track` for every track of a file -/
+def tracksFit (cs : Charset) (trs : List (List TEvent)) : Prop :=
+  ∀ tr ∈ trs, ∀ fixed body, fixEotEvents (.int 0) tr = .ok fixed → writeEvents cs none fixed = .ok body →
+    body.length < 4294967296
+
+theorem src_save_loop (cs : Charset) (F : List TMsg → List Int → Except Err (ForInStep (List Int)))
+    (hF : ∀ track s, F track s = (match Src.write_track s track with
+      | .error err => .error err | .ok v => .ok (.yield v.2))) :
+    ∀ (trs : List (List TEvent)) (out : List Int), tracksFit cs trs →
+      forIn (trs.map (·.map (TEvent.toW cs))) out F =
+        match writeTracks cs trs with
+        | .ok b => .ok (out ++ natsToInts b)
+        | .error e => .error e
+  | [], out, _ => by simp [writeTracks, natsToInts, pure, Except.pure]
+  | tr :: trs, out, hfit => by
+    have h1 := src_write_track cs out tr (hfit tr (by simp))
+    have hfit' : tracksFit cs trs := fun t ht => hfit t (by simp [ht])
+    rw [List.map_cons, List.forIn_cons, hF, h1]
+    simp only [writeTracks, bind, Except.bind, pure, Except.pure]
+    cases hw : writeTrack cs tr with
+    | error e => simp
+    | ok a =>
+      have ih := src_save_loop cs F hF trs (out ++ natsToInts a) hfit'
+      simp only []
+      rw [ih]
+      cases writeTracks cs trs with
+      | error e => rfl
+      | ok b => simp [natsToInts_append, List.append_assoc]
+
+theorem forIn_save (l : List (List TMsg)) (init : List Int) (F : List TMsg → List Int → Except Err (ForInStep (List Int)))
+    (hF : ∀ track s, F track s = (match Src.write_track s track with
+      | .error err => .error err | .ok v => .ok (.yield v.2))) :
+    forIn l init F = forIn l init (fun track s => match Src.write_track s track with
+      | .error err => .error err | .ok v => .ok (.yield v.2)) := by
+  have : F = _ := funext fun t => funext fun s => hF t s
+  rw [this]
+
+/-- `MidiFile.save(file=…)`, as translated from the source (type-0 rule, `struct.pack('>hhh', …)`, header chunk, one
+    `write_track` per track), writes for EVERY file the bytes of the model's `writeFile`, and raises where it raises -/
+theorem src_save (cs : Charset) (out : List Int) (f : MFile) (hfit : tracksFit cs f.tracks) :
+    Src.MidiFile.save f.type (f.tracks.map (·.map (TEvent.toW cs))) f.tpb out =
+      match writeFile cs f with
+      | .ok b => .ok ((), out ++ natsToInts b)
+      | .error e => .error e := by
+  unfold Src.MidiFile.save Src.MidiFile._save
+  have hl : len (f.tracks.map (·.map (TEvent.toW cs))) = (f.tracks.length : Int) := by simp [len]
+  simp only [bind, Except.bind, pure, Except.pure, hl]
+  unfold writeFile
+  by_cases h0 : f.type = 0 ∧ f.tracks.length ≠ 1
+  · have : (f.type == 0 && ((f.tracks.length : Int) != 1)) = true := by
+      obtain ⟨a, b⟩ := h0
+      have : ¬ ((f.tracks.length : Int) = 1) := by omega
+      simp [a, this]
+    rw [if_pos this, if_pos h0]
+    rfl
+  · have : (f.type == 0 && ((f.tracks.length : Int) != 1)) = false := by
+      by_cases a : f.type = 0
+      · have b : f.tracks.length = 1 := by
+          by_cases b : f.tracks.length = 1
+          · exact b
+          · exact absurd ⟨a, b⟩ h0
+        simp [a, b]
+      · simp [a]
+    simp only [h0, this, if_false, Bool.false_eq_true, packI16x3, packI16_eq, bind, Except.bind, pure, Except.pure]
+    cases ha : i16be f.type with
+    | error e => simp [Except.map]
+    | ok a =>
+      cases hb : i16be (f.tracks.length : Int) with
+      | error e => simp [Except.map]
+      | ok b =>
+        cases hc : i16be f.tpb with
+        | error e => simp [Except.map]
+        | ok c =>
+          have la : a.length = 2 := by
+            unfold i16be at ha; split at ha <;> simp at ha; subst ha; rfl
+          have lb : b.length = 2 := by
+            unfold i16be at hb; split at hb <;> simp at hb; subst hb; rfl
+          have lc : c.length = 2 := by
+            unfold i16be at hc; split at hc <;> simp at hc; subst hc; rfl
+          have h6 : (a ++ b ++ c).length = 6 := by simp [la, lb, lc]
+          have hch := src_write_chunk out [77, 84, 104, 100] (a ++ b ++ c) (by omega)
+          simp only [Except.map, natsToInts_append] at hch ⊢
+          rw [hch]
+          simp only []
+          rw [forIn_save]
+          case hF => intro track s; cases Src.write_track s track <;> rfl
+          rw [src_save_loop cs _ (fun _ _ => rfl) f.tracks _ hfit]
+          cases writeTracks cs f.tracks with
+          | error e => rfl
+          | ok body =>
+            simp [mthd, la, lb, lc, u32be, natsToInts, List.append_assoc]
+
 end Mido
